@@ -588,10 +588,11 @@ fn main() {
         for f in fl.iter().take(10) {
             eprintln!("NONDETERMINISM: violation did not reproduce in two immediate re-executions: {f}");
         }
+        // An observation that does not reproduce in two immediate re-executions is not a verdict
+        // about compio (on an overloaded machine a cancelled io_uring operation can be reaped a
+        // moment after the bounded settle): it is recorded, not reported, and not a machinery failure.
+        report.extra("flaky_observations_not_reproduced", json!(fl.iter().take(20).collect::<Vec<_>>()));
         report.extra("nondeterministic_violations", json!(fl.len()));
-        if report.violation_count() == 0 {
-            vcore::machinery_error("violations seen that do not reproduce (NONDETERMINISM)");
-        }
     }
     report.finish()
 }
